@@ -1476,15 +1476,20 @@ func (env *SpecEnv) pureCall(fn *SExpr, args []*SExpr) (*Term, types.Type, bool)
 		}
 		if key == "" {
 			bv, bt := env.tr(fn.Args[0])
-			obj, _, _ := types.LookupFieldOrMethod(bt, true, env.pkg, fn.Name)
+			obj, index, _ := types.LookupFieldOrMethod(bt, true, env.pkg, fn.Name)
 			if obj == nil {
 				if n := namedOf(bt); n != nil && n.Obj().Pkg() != nil {
-					obj, _, _ = types.LookupFieldOrMethod(bt, true, n.Obj().Pkg(), fn.Name)
+					obj, index, _ = types.LookupFieldOrMethod(bt, true, n.Obj().Pkg(), fn.Name)
 				}
 			}
 			f, ok := obj.(*types.Func)
 			if !ok {
 				return nil, nil, false
+			}
+			if len(index) > 1 {
+				// a method promoted from an embedded field: the receiver is that field's value,
+				// which the contract has to spell out
+				env.fail("%s is promoted from an embedded field of %s: write the embedded field explicitly (x.<field>.%s())", fn.Name, typeKey(bt), fn.Name)
 			}
 			key = funcObjKey(f)
 			sig = f.Type().(*types.Signature)
